@@ -1,11 +1,65 @@
 (* C18 - Counterfactual-graph construction preserves the event's probability. *)
-From Coq Require Import List Bool Relations.
-From Y0 Require Import Base.ListSet Graph.MixedGraph Dsl.Syntax Dsl.Build Alg.Cg Proofs.SurgeryP Proofs.CfP Proofs.CgAcyclicP.
+From Coq Require Import List Bool Arith Relations.
+From Y0 Require Import Base.ListSet Graph.MixedGraph Dsl.Syntax Dsl.Build Alg.Cg Alg.IdStar Proofs.SurgeryP Proofs.CfP Proofs.CgAcyclicP
+  Sem.Scm Sem.CfSem Proofs.ScmP Proofs.CgSemP Proofs.CgSem5P.
 Import ListNotations.
 
-(* The semantic clauses (same probability; inconsistent => probability zero) rest on Lemmas 24/25 of Shpitser & Pearl
-   about the implemented predicates and are not proved; they are checked on every run by the functional-SCM oracle.
-   Structural clauses proved on the model for every graph, event, topological order and world order: *)
+(* THE SEMANTIC CLAUSES, for every input: 'the relabelled event has the same probability as the original in every compatible structural causal
+   model; inconsistent is reported only for events of probability zero in every compatible model'.
+   Semantics (Sem/Scm.v, Sem/CfSem.v): a functional SCM over the graph g0 - one structural function per node reading its parents only, any exogenous
+   space U whose state u is shared by all worlds, values relative to a base assignment rho; Y_x at u is the value of Y in the unique solution
+   of the submodel M_x at u. For EVERY well-formed acyclic ADMG without bidirected self-loops, every event that is a dict over variables of the graph
+   in y0's normal form (event_ok), every such model, EVERY visiting order of the worlds and EVERY exogenous state u: the relabelled event is true at u
+   exactly when the original is, and when make-cg answers 'inconsistent' the original is true at no state. Truth at the same states gives the same
+   probability under every distribution of u - every SCM compatible with the graph, whatever its latent structure.
+   Proof (Proofs/CgSem*P.v): Lemma 24 for the implemented predicates (two nodes passing the test take the same value wherever the event holds of the
+   variables standing before them: merge_equality), the invariant of the merging loop (every free node has, for each parent in g0, exactly one
+   graph parent of that name, whose value is the parent's value in the node's world: InvG), Lemma 25 (update of the event: transfer_holds). *)
+Theorem C18_relabelled_event_is_true_at_exactly_the_same_states (g0 : mg nat) (U : Type) (f : nat -> (nat -> bool) -> U -> bool) (rho : nat -> bool)
+  (order : list nat) (ev0 : event) cf r :
+  local g0 U f -> is_topo g0 order = true -> wf g0 -> (forall x, ~ In (x, x) (bid g0)) -> event_ok g0 ev0 ->
+  In (cf, r) (make_counterfactual_graph_all (gv g0) ev0 (map V order)) ->
+  forall u, match r with
+            | Some ev' => event_true U f rho order ev0 u = event_true U f rho order ev' u
+            | None => event_true U f rho order ev0 u = false
+            end.
+Proof. intros Hl Ho Hw Hn. exact (cg_all_same_truth g0 U f rho Hl order Ho Hw Hn ev0 cf r). Qed.
+
+(* the same for any given list of worlds (any order, any superset of the event's worlds) *)
+Theorem C18_relabelled_event_same_truth_for_given_worlds (g0 : mg nat) (U : Type) (f : nat -> (nat -> bool) -> U -> bool) (rho : nat -> bool)
+  (order : list nat) (worlds : list world) (ev0 : event) cf r :
+  local g0 U f -> is_topo g0 order = true -> wf g0 -> (forall x, ~ In (x, x) (bid g0)) ->
+  (forall w, In w worlds -> NoDup (map fst (norm_ivs w))) -> NoDup (map norm_ivs worlds) ->
+  NoDup (map fst ev0) -> wnamed ev0 -> (forall p, In p ev0 -> clean (fst p) /\ In (vn (fst p)) (nodes g0)) ->
+  make_counterfactual_graph (gv g0) ev0 (map V order) worlds = (cf, r) ->
+  forall u, match r with
+            | Some ev' => event_true U f rho order ev0 u = event_true U f rho order ev' u
+            | None => event_true U f rho order ev0 u = false
+            end.
+Proof. intros Hl Ho Hw Hn. exact (cg_same_truth g0 U f rho Hl order Ho Hw Hn worlds ev0 cf r). Qed.
+
+(* not vacuous: on X -> Y the event {X = x, Y_x = y} is well formed and is relabelled to {X = x, Y = y} (a merge happens);
+   {Y = y', Y_x = y, X = x} is reported inconsistent *)
+Example C18_semantic_clause_not_vacuous :
+  let g0 := MG [0; 1] [(0, 1)] [] in
+  let ev1 := [(V 0, (0, false)); (mkVar KCf 1 None [(0, false)], (1, false))] in
+  let ev2 := [(V 1, (1, true)); (mkVar KCf 1 None [(0, false)], (1, false)); (V 0, (0, false))] in
+  event_ok g0 ev1 /\ event_ok g0 ev2 /\ is_topo g0 [0; 1] = true /\
+  map snd (make_counterfactual_graph_all (gv g0) ev1 [V 0; V 1]) = [Some [(V 0, (0, false)); (V 1, (1, false))]] /\
+  map snd (make_counterfactual_graph_all (gv g0) ev2 [V 0; V 1]) = [None].
+Proof.
+  cbv zeta.
+  assert (Hok : forall ev, (forallb (fun p => Nat.eqb (fst (snd p)) (vn (fst p)) && mem (vn (fst p)) [0; 1]
+                                  && nodupb (map fst (var_ivs (fst p))) && (negb (is_cf (fst p)) || eqb (norm_ivs (vi (fst p))) (vi (fst p)))) ev
+                            && nodupb (map fst ev)) = true -> event_ok (MG [0; 1] [(0, 1)] []) ev).
+  { intros ev H. apply andb_true_iff in H. destruct H as [H Hk]. rewrite forallb_forall in H. split; [apply nodupb_NoDup; exact Hk|]. split.
+    - intros p Hp. specialize (H p Hp). rewrite !andb_true_iff in H. destruct H as [[[H _] _] _]. apply Nat.eqb_eq in H. exact H.
+    - intros p Hp. specialize (H p Hp). rewrite !andb_true_iff in H. destruct H as [[[_ H1] H2] H3]. split; [apply nodupb_NoDup; exact H2|]. split; [apply mem_In in H1; exact H1|].
+      intros Ec. rewrite Ec in H3. cbn [negb orb] in H3. apply eqb_true in H3. exact H3. }
+  split; [apply Hok; vm_compute; reflexivity|]. split; [apply Hok; vm_compute; reflexivity|]. vm_compute. auto.
+Qed.
+
+(* Structural clauses proved on the model for every graph, event, topological order and world order: *)
 Theorem C18_result_graph_is_the_ancestral_set_of_the_relabelled_event g ev topo worlds cf' ev' :
   make_counterfactual_graph g ev topo worlds = (cf', Some ev') ->
   exists cf, cf' = subgraph cf (ancestors_inclusive cf (ev_keys ev')) /\
@@ -25,6 +79,8 @@ Theorem C18_counterfactual_graph_is_acyclic (r : nat -> nat) g ev topo worlds :
   forall v, ~ clos_trans var (fun a b => In (a, b) (dir (fst (make_counterfactual_graph g ev topo worlds)))) v v.
 Proof. exact (counterfactual_graph_acyclic r g ev topo worlds). Qed.
 
+Print Assumptions C18_relabelled_event_is_true_at_exactly_the_same_states.
+Print Assumptions C18_relabelled_event_same_truth_for_given_worlds.
 Print Assumptions C18_counterfactual_graph_is_acyclic.
 Print Assumptions C18_result_graph_is_the_ancestral_set_of_the_relabelled_event.
 Print Assumptions C18_event_contradicting_its_own_subscript_is_inconsistent.
